@@ -141,8 +141,8 @@ def r1_one_impl(rep, ctx):
             # the empty-operands arm: only the resulting quantity is used, the value is discarded
             par = getattr(c, "_parent", None)
             if isinstance(par, ast.Assign) and isinstance(par.targets[0], ast.Tuple) and len(par.targets[0].elts) == 2 \
-                    and isinstance(par.targets[0].elts[1], ast.Name) and par.targets[0].elts[1].id == "_":
-                v_ok = True
+                    and isinstance(par.targets[0].elts[1], ast.Name) and not any(isinstance(x, ast.Name) and isinstance(x.ctx, ast.Load) and x.id == par.targets[0].elts[1].id for x in ast.walk(afn.node)):
+                v_ok = True  # (the value part is bound to a name that is never read)
         rep.check(q1_ok and q2_ok and v_ok, "C10.R1", "Array._DoOperation:%s" % norm(ast.unparse(c)),
                   "the database operation receives (left quantity, right quantity, left value, right value) of the generated pair",
                   "Array._DoOperation calls the operation with %s" % [show(x, 60) for x in (q1, q2, v0, v1)], node=c, fn=afn)
